@@ -10,6 +10,9 @@ MP, MPS, MPO, MPDM, TREE = Q.MP, Q.MPS, Q.MPO, Q.MPDM, Q.TREE
 
 
 # ------------------------------------------------------------------------------------------ shared rule runners
+PRODUCT_RUN = ("Mpo.apply", "MpDm.apply")
+
+
 def run_align_and_charge(chk, src, floor_align=3, floor_charge=5):
     chk.rule("qn-align", "a function that combines the bond-label lists of two objects reads both lists at the same quantum-number centre "
              "(R.move_qnidx(X.qnidx) on one of the two operands before the combination, a centre-invariant operand, or an assert of equal centres)", floor_align)
@@ -19,6 +22,8 @@ def run_align_and_charge(chk, src, floor_align=3, floor_charge=5):
     chk.table("qn_writer_sites", [f"{fi.qual}: {form} {srcs}" for fi, n, form, srcs in writers])
     for fi, n, form, srcs in writers:
         key = f"{fi.qual}: {form}"
+        if form == "outer-sum" and fi.qual in PRODUCT_RUN:
+            continue        # centre alignment and total charge of the chain products are decided by the abstract run (chain_rules.product_rule), however the labels are spelled
         if form == "unknown":
             raise AnalysisError(f"{fi.where}: assignment to .qn of unclassifiable form: {norm_stmt(n)}")
         if form in ("direct-sum", "outer-sum"):
@@ -123,7 +128,7 @@ def run_merge_order(chk, src, floor=3):
              "operands of the add_outer that builds the merged labels (tensor index a*dim_b + b <-> label qn_a[a] + qn_b[b])", floor)
     # chain products: abstract run (chain_rules.product_rule)
     from .chain_rules import product_rule
-    product_rule(chk, src, "merge-order")
+    product_rule(chk, src, "merge-order", rule_align="qn-align", rule_charge="qn-charge")
     # tree: the operator x state product of the tree classes is decided by the abstract run on symbolic trees (tree_rules.state_networks, rule `state-network`):
     # merged (state, operator) bond pairs and their labels in one order, for every node of every topology, whatever the convention
     from . import tree_rules as TR
